@@ -383,6 +383,42 @@ def run(ctx):
                 elif first[s] != r:
                     vio.append({"sig": "C13:not-pure", "what": "the same string scored %r then %r" % (first[s], r),
                                 "replay": {"training": pws, "string": s}})
+        # the score depends only on the string and the ruleset: not on the classification cut-off
+        # (PCFGPasswordScorer(limit) / password_scorer.py --limit) nor on the OMEN cut-off
+        nz = sorted(r[1] for _, r in scored if r and r[1] > 0)
+        limits = [min(nz) / 2, nz[len(nz) // 2], nz[-1], 2.0] if nz else [1e-9, 0.5, 2.0]
+        cutoff_diffs = []
+        for k, lim in enumerate(limits):
+            sc.limit = lim
+            if k % 2:
+                sc.omen = OmenStub()
+                sc.omen.max_omen_level = 5
+                sc.omen.parse = lambda password: 3
+            for s in cands:
+                try:
+                    _, cat, prob, _ = sc.parse(s)
+                    r = ({"e": 1, "w": 2}.get(cat, 0), float(prob))
+                except Exception as e:            # noqa: BLE001
+                    r = None
+                evaluations += 1
+                if r != first[s] and not (r and first[s] and r[1] == first[s][1] and r[0] == first[s][0]):
+                    dist["cutoff_dependent"] += 1
+                    if len(cutoff_diffs) < 20:
+                        cutoff_diffs.append((s, r))
+                    vio.append({"sig": "C13:depends-on-cutoff",
+                                "what": "%r scores %r with the default cut-off and %r with limit=%r: the score must depend on the "
+                                        "string and the ruleset only" % (s, first[s], r, lim),
+                                "replay": {"training": pws, "string": s, "limit": lim}})
+                    if r and r[1] != 0:
+                        qs = by_s.get(s)
+                        if not qs or min(abs(q - r[1]) / r[1] for q in qs) > TOL:
+                            vio.append({"sig": "C13:nonzero-not-generated:cutoff",
+                                        "what": "with limit=%r the score of %r is %r, which is not the probability of any pre-terminal "
+                                                "that emits it (%r)" % (lim, s, r[1], (qs or [])[:3]),
+                                        "replay": {"training": pws, "string": s, "limit": lim}})
+            sc.limit = 0
+            sc.omen = OmenStub()
+        scored_extra = cutoff_diffs
         if mw_before != sc.multiword_detector.lookup or tables_before != (
                 sc.count_alpha, sc.count_alpha_masks, sc.count_digits, sc.count_other, sc.count_keyboard,
                 dict(sc.count_years), dict(sc.count_context_sensitive), dict(sc.count_base_structures)):
@@ -431,10 +467,11 @@ def run(ctx):
         if small is not None:
             dist["language_compared_in_coq"] += 1
         name = "r%03d" % i
-        shards.append((name, shard_source((cruleset(sc), scored, mwq, small))))
+        # the model has no cut-off: what the code returned under another one is compared with the same model value
+        shards.append((name, shard_source((cruleset(sc), scored + scored_extra, mwq, small))))
         shards.append(("v%03d" % i, gview_source(sc, g)))
         meta["v%03d" % i] = {"training": pws}
-        meta[name] = {"training": pws, "strings": [s for s, _ in scored]}
+        meta[name] = {"training": pws, "strings": [s for s, _ in scored + scored_extra]}
         if len(samples) < 3:
             nz = [(s, r[1]) for s, r in scored if r and r[1] != 0][:3]
             samples.append({"training": pws[:8], "nonzero": nz, "language": len(lang)})
@@ -495,6 +532,13 @@ def replay(ctx, data):
     strings = [inp["string"]] if "string" in inp else list(dict.fromkeys(inp["training"]))
     for s in strings:
         _, cat, p, _ = sc.parse(s)
+        if "limit" in inp:
+            sc.limit = inp["limit"]
+            _, cat2, p2, _ = sc.parse(s)
+            sc.limit = 0
+            if p2 != p:
+                out.append({"sig": "C13:depends-on-cutoff", "what": "%r scores %r by default and %r with limit=%r" % (s, p, p2, inp["limit"]),
+                            "replay": inp})
         if p != 0:
             qs = by_s.get(s)
             cls = case_class(s)
